@@ -139,6 +139,38 @@ func (a *EpochBitmapAllocator) Allocate(ctx context.Context, subscriberID string
 	return nil, ErrPoolExhausted
 }
 
+// SetAllocation places a subscriber on a specific IP with the current
+// generation (for replaying allocations from the distributed store).
+// It fails if the IP is outside the pool, reserved, or held by another subscriber.
+func (a *EpochBitmapAllocator) SetAllocation(subscriberID string, ip net.IP) error {
+	a.mu.Lock()
+	defer a.mu.Unlock()
+
+	idx, err := a.ipToIndex(ip)
+	if err != nil {
+		return err
+	}
+	if idx == 0 || idx == a.totalIPs-1 {
+		return fmt.Errorf("IP %s is reserved", ip)
+	}
+	if existing, owned := a.ipToSubscriber[idx]; owned && existing != subscriberID {
+		return fmt.Errorf("IP %s already allocated to %s", ip, existing)
+	}
+
+	// Move the subscriber if it currently sits on a different slot
+	if oldIdx, exists := a.subscribers[subscriberID]; exists && oldIdx != idx {
+		delete(a.ipToSubscriber, oldIdx)
+		if oldIdx < a.nextFreeHint {
+			a.nextFreeHint = oldIdx
+		}
+	}
+
+	a.setGeneration(idx, a.currentGeneration())
+	a.subscribers[subscriberID] = idx
+	a.ipToSubscriber[idx] = subscriberID
+	return nil
+}
+
 // Renew updates the generation for an existing allocation.
 // This extends the lease without changing the IP.
 func (a *EpochBitmapAllocator) Renew(ctx context.Context, subscriberID string) error {
